@@ -170,8 +170,20 @@ def run(case):
 
         shape, fail = case["shape"], case["fail"]
         ntot = sum(shape)
-        for (custom, defaults, use_x0, fam) in itertools.product((False, True), (True, False), (False, True), ("hexahedron", "quad-ps")):
-            if fam == "hexahedron":
+        for (custom, defaults, use_x0, fam) in itertools.product((False, True), (True, False), (False, True), ("hexahedron", "quad-ps", "two-body")):
+            bodies = None
+            if fam == "two-body":
+                # two bodies on the sub-meshes of a merged mesh container, solved through a top-level field x0 on the
+                # stacked mesh: the file must hold the mesh of the field that was solved
+                if not use_x0:
+                    continue
+                cont = fem.MeshContainer([fem.Cube(a=(0, 0, 0), b=(1, 1, 1), n=2), fem.Cube(a=(1, 0, 0), b=(3, 1, 1), n=(3, 2, 2))], merge=True)
+                mesh = cont.stack()
+                subfields = [fem.FieldContainer([fem.Field(fem.RegionHexahedron(m), dim=3)]) for m in cont.meshes]
+                region = fem.RegionHexahedron(mesh)
+                field = fem.FieldContainer([fem.Field(region, dim=3)])
+                bodies = [fem.SolidBody(fem.NeoHooke(mu=1.0, bulk=5.0), subfields[0]), fem.SolidBody(fem.NeoHooke(mu=3.0, bulk=9.0), subfields[1])]
+            elif fam == "hexahedron":
                 mesh = zoo.make("hexahedron", "renum", seed)
                 region = fem.RegionHexahedron(mesh)
                 field = fem.FieldContainer([fem.Field(region, dim=3)])
@@ -179,14 +191,15 @@ def run(case):
                 mesh = zoo.make("quad", "renum", seed)
                 region = fem.RegionQuad(mesh)
                 field = fem.FieldContainer([fem.FieldPlaneStrain(region, dim=2)])
-            body = fem.SolidBody(fem.NeoHooke(mu=1.0, bulk=5.0), field)
+            if bodies is None:
+                bodies = [fem.SolidBody(fem.NeoHooke(mu=1.0, bulk=5.0), field)]
             bounds, lc = fem.dof.uniaxial(field, clamped=True, move=0.0, axis=0, sym=False)
             poison = Poison(field, lc["dof1"])
             vals = 0.05 * (1 + np.arange(ntot)) * np.where(np.arange(ntot) % 3 == 2, -1, 1)
             pv = [1 if fail == i else 0 for i in range(ntot)]
             steps, o = [], 0
             for ns in shape:
-                steps.append(fem.Step([body, poison], ramp={bounds["move"]: list(vals[o:o + ns]), poison: pv[o:o + ns]}, boundaries=bounds))
+                steps.append(fem.Step(bodies + [poison], ramp={bounds["move"]: list(vals[o:o + ns]), poison: pv[o:o + ns]}, boundaries=bounds))
                 o += ns
             got = []
 
